@@ -99,6 +99,12 @@ def cases(tier, seed):
         for jt in itertools.product(["revolute", "prismatic", "floating", "fixed"], repeat=n - 1):
             for root in ("fixed_generic", "floating"):
                 out.append(mk(shape, ("fixed",) + jt, root, "generic", "generic", "generic", special="massless_first_child"))
+    # a joint that carries the name of a link declared later (different name spaces in URDF)
+    for shape in ("chain2", "fork2"):
+        n = len(SHAPES[shape])
+        for jt in itertools.product(["revolute", "prismatic", "fixed"], repeat=n):
+            for root in ("fixed_generic", "floating"):
+                out.append(mk(shape, jt, root, "generic", "generic", "generic", special="name_clash"))
     if not thorough:
         for jt in (("revolute",), ("continuous",), ("prismatic",), ("revolute", "revolute")):
             out.append(mk("chain%d" % len(jt), jt, "fixed_generic", "generic", "absent", "generic"))
@@ -247,6 +253,9 @@ def _model(case):
     m["massless"] = []
     if case.get("special") == "massless_leaf":
         m["massless"] = [n]  # the last link hangs on the last joint, which is fixed in these cases
+    if case.get("special") == "name_clash":
+        # the first joint carries the name of the LAST link (legal in URDF: links and joints live in different name spaces)
+        m["jnames"] = {0: f"L{n}"}
     if case.get("special") == "massless_first_child":
         m["massless"] = [1]  # first child of the root (a leaf in fork2 / star3), its joint j1 is fixed and listed first
     # root
@@ -282,7 +291,7 @@ def _urdf_text(m):
         L.append("  </inertial>")
         L.append(" </link>")
     for k in range(m["n"]):
-        L.append(f' <joint name="j{k + 1}" type="{m["types"][k]}">')
+        L.append(f' <joint name="{_jname(m, k)}" type="{m["types"][k]}">')
         if m["o_present"][k]:
             L.append(f'  <origin xyz="{_vec(m["o_xyz"][k])}" rpy="{_vec(m["o_rpy"][k])}"/>')
         L.append(f'  <parent link="L{m["parents"][k]}"/>')
@@ -305,7 +314,7 @@ def _state(m, s, seed):
     cfg, vel, ref, kinds = {}, {}, [], {}
     for k in range(m["n"]):
         t = m["types"][k]
-        name = f"j{k + 1}"
+        name = _jname(m, k)
         ax = m["axis"][k]
         cval = {"absent": None, "zero": 0.0, "a": 0.7 * SC[k], "b": -2.5 * SC[k], "cfg_only": 0.7 * SC[k], "vel_only": None}[s]
         vval = {"absent": None, "zero": 0.0, "a": -2.5 * SC[k], "b": 0.7 * SC[k], "cfg_only": None, "vel_only": 0.7 * SC[k]}[s]
@@ -424,10 +433,28 @@ def _norm_msg(e):
     return f"{type(e).__name__}: {msg[:110]}"
 
 
+def _by_name(system, name, body):
+    """contribution registered under `name` (or under the unique name System.add derived from it when the name was taken:
+    '<name>_contr<N>'), restricted to bodies/frames (body=True) or to everything else (body=False)"""
+    from cardillo.discrete import RigidBody, Frame
+
+    for c in system.contributions:
+        nm = getattr(c, "name", None)
+        if nm is None or not (nm == name or nm.startswith(name + "_contr")):
+            continue
+        if isinstance(c, (RigidBody, Frame)) == body:
+            return c
+    return None
+
+
+def _jname(m, k):
+    return m.get("jnames", {}).get(k, f"j{k + 1}")
+
+
 def _q_from_fk(system, m, bodies):
     q = np.array(system.q0, float).copy()
     for i in range(m["n"] + 1):
-        b = system.contributions_map.get(f"L{i}")
+        b = _by_name(system, f"L{i}", True)
         if b is None or not hasattr(b, "qDOF") or len(getattr(b, "qDOF", [])) != 7:
             continue
         q[b.qDOF] = np.concatenate([bodies[i]["r"], _A_to_quat(bodies[i]["A"])])
@@ -483,7 +510,7 @@ def check(case):
             # ---- links
             for i in range(m["n"] + 1):
                 name = f"L{i}"
-                b = system.contributions_map.get(name)
+                b = _by_name(system, name, True)
                 if i in m["massless"]:
                     if b is not None:
                         fail("massless fixed leaf was added as a body", f"state={s} link {name}", state=s, link=i)
@@ -539,7 +566,7 @@ def check(case):
             # ---- gravity: translational generalized force of every body = m * g
             h = np.asarray(system.h(t0, q0, u0))
             for i in range(m["n"] + 1):
-                b = system.contributions_map.get(f"L{i}")
+                b = _by_name(system, f"L{i}", True)
                 if isinstance(b, RigidBody):
                     e = float(np.max(np.abs(h[b.uDOF[:3]] - m["mass"][i] * m["grav"])))
                     stats["max_err_gravity"] = max(stats["max_err_gravity"], e)
@@ -548,8 +575,8 @@ def check(case):
             # ---- joints: reported coordinates and admissible motion
             for k in range(m["n"]):
                 t = m["types"][k]
-                name = f"j{k + 1}"
-                J = system.contributions_map.get(name)
+                name = _jname(m, k)
+                J = _by_name(system, name, False)
                 if (k + 1) in m["massless"]:
                     continue
                 if t == "floating":
